@@ -62,13 +62,23 @@ package bondmachine
 //@   ensures ok: result1 ==> istype(result, Channel_instance)
 //@   ensures claim: result1 ==> len(s) >= 8 && sub(s, 0, 8) == "channel:"
 
-// kinds whose parameters are parsed with strings.Split: only the claim on the text's prefix is decided
+// kinds whose parameters are parsed with strings.Split (field laws of the string model); vtextmem: only the claim on the prefix
+//@ func (sm Kbd_instance) String() string
+//@   ensures text: result == cat("kbd:", itoa(sm.Depth))
+
 //@ func (op Kbd) Instantiate(s string) (Shared_instance, bool)
 //@   ensures claim: result1 ==> len(s) >= 4 && sub(s, 0, 4) == "kbd:"
+//@   ensures parse: forall k int :: s == cat("kbd:", itoa(k)) ==>
+//@             result1 && istype(result, "*Kbd_instance") && unbox(result, "*Kbd_instance").Depth == k
+
+//@ func (sm Uart_instance) String() string
+//@   ensures text: result == cat(cat(cat("uart:", itoa(sm.BaudRate)), ":"), itoa(sm.Depth))
 
 //@ func (op Uart) Instantiate(s string) (Shared_instance, bool)
 //@   ensures claim: result1 ==> len(s) >= 5 && sub(s, 0, 5) == "uart:"
 //@   ensures ok: result1 ==> istype(result, Uart_instance)
+//@   ensures parse: forall b int, k int :: s == cat(cat(cat("uart:", itoa(b)), ":"), itoa(k)) ==>
+//@             result1 && unbox(result, Uart_instance).BaudRate == b && unbox(result, Uart_instance).Depth == k
 
 //@ func (op Vtextmem) Instantiate(s string) (Shared_instance, bool)
 //@   ensures claim: result1 ==> len(s) >= 9 && sub(s, 0, 9) == "vtextmem:"
